@@ -471,7 +471,7 @@ def _s3_case(ctx, rep, rng, model_ok, case_id, directed=None):
 
     def hook(phase, op, key, kw):
         a = S.actor()
-        if a is None or not key.endswith("metadata.lock"):
+        if a is None or not key.endswith("metadata.lock") or op in ("body-read", "list-page"):
             return
         if phase == "before":
             S.gate(f"s3 {op}")
